@@ -43,7 +43,7 @@ int main(int argc, char** argv) {
             for (uint32_t b = 0; b < s.nb; b++) s.off.insert(s.off.end(), f.begin(), f.end());   // same field for every bunch
             break; }
         case K_RF_LIN: s.angle = r.uni(-0.3, 0.3); break;
-        case K_RF_SIN: { double dE = s.pqsize / (s.n - 1) * s.pscale; s.V = 1e6; s.V0 = r.uni(0, 0.9) * s.V; s.revpart = r.uni(-1, 1) * amp * dE / (s.V - s.V0 + 1); break; }
+        case K_RF_SIN: { double dE = s.pqsize / (s.n - 1) * s.pscale; s.V = 1e6; s.V0 = r.uni(0, 0.9) * s.V; s.revpart = r.uni(-1, 1) * amp * dE / (s.V + s.V0); break; }
         case K_DRIFT: { double a = r.uni(-0.3, 0.3); s.slip = {(float)a}; if (r.chance(0.5)) s.slip.push_back((float)(a * r.uni(-200, 200))); break; }
         case K_FP: { s.fptype = (int)r.range(0, 3); s.deriv = r.chance(0.5) ? 3 : 4; double d = s.pqsize / (s.n - 1); s.e1 = std::min(r.logu(1e-5, 1e-2), 0.4 * d * d); break; }
         case K_WAKE: {
